@@ -1134,3 +1134,226 @@ spec('C19', correspond=c19_correspond, replay=generic_replay, modules=['C19'],
      trusted=['std::sync::mpsc try_recv/recv as an atomic FIFO', 'the evaluator model is tied to eval/mod.rs by differential execution', 'the correspondence check (hook H3 delivers scripted commands at loop heads)'],
      assumptions=['thread scheduling and wall-clock latency are runtime behaviour: any timing is modelled as "available from loop head k on"',
                   'a command that arrives after the evaluation ended stays queued and is seen by the next evaluation (observation, DESIGN §5/C19)'])
+
+
+# ================================================================================================ C07
+
+def max_depth():
+    m = re.search(r'MAX_RECURSION_DEPTH:\s*usize\s*=\s*(\d+)', open(os.path.join(lib.REPO, 'src', 'config.rs')).read())
+    return int(m.group(1)) if m else 1024
+
+TAIL_LOOPS = {
+    # name: (definitions, call with {n}, expected printed result as a function of n)
+    'if-lambda': ("(defun lp (n acc) \"\" (if (= n 0) acc (lp (substract n 1) (add acc 1))))", "(lp {n} 0)", lambda n: str(n)),
+    'eval': ("(defun lpe (n) \"\" (if (= n 0) 'done (eval (list 'lpe (substract n 1)))))", "(lpe {n})", lambda n: 'done'),
+    'mutual': ("(defun ev? (n) \"\" (if (= n 0) t (od? (substract n 1))))\n(defun od? (n) \"\" (if (= n 0) nil (ev? (substract n 1))))", "(ev? {n})", lambda n: 't' if n % 2 == 0 else '()'),
+    'when-block': ("(defun lpb (n) \"\" (when (> n 0) (block 1 (lpb (substract n 1)))))", "(lpb {n})", lambda n: '()'),
+    'length-range': ("", "(length (range {n}))", lambda n: str(n)),
+    'foldl': ("", "(foldl add 0 (range {n}))", lambda n: str(n * (n - 1) // 2)),
+    'reverse-map': ("", "(car (reverse (map (lambda (x) (add x 1)) (range {n}))))", lambda n: str(n) if n > 0 else '()'),
+    'zip': ("", "(length (zip (range {n}) (range {n})))", lambda n: str(n)),
+}
+
+DEEP_PATHS = {
+    # non-tail recursion through each recursive path; each is wrapped in a trap that proves the signal is trappable
+    'operand': ("(defun deep (n) \"\" (if (= n 0) 0 (add 1 (deep (substract n 1)))))", "(deep {n})"),
+    'cons-evaluation': ("(defun deepc (n) \"\" (if (= n 0) 0 (car (list (deepc (substract n 1))))))", "(deepc {n})"),
+    'macro-expansion': ("", None),          # built below: nested (when t (when t …))
+    'trap-bodies': ("(defun deept (n) \"\" (if (= n 0) 0 (eval (trap (add 1 (deept (substract n 1))) (signal *trapped-signal*)))))", "(deept {n})"),
+    'nested-eval': ("(defun deepe (n) \"\" (if (= n 0) 0 (add 1 (eval (list 'deepe (substract n 1))))))", "(deepe {n})"),
+    'printing': ("", "(print (foldl (lambda (acc x) (list acc)) 1 (range {n})))"),
+    'foldr': ("", "(foldr add 0 (range {n}))"),
+}
+
+def deep_program(path, n):
+    defs, call = DEEP_PATHS[path]
+    if path == 'macro-expansion':
+        # quoted, so that the expansion happens inside the trap and not while the whole top-level form is expanded
+        call = "(eval (quote " + '(when t ' * n + '1' + ')' * n + "))"
+    else:
+        call = call.format(n=n)
+    return (defs + '\n' if defs else '') + f"(eval (trap {call} (list 'caught (. *trapped-signal* 'kind) (. *trapped-signal* 'source))))"
+
+def run_plain_expression(expr, timeout=180, stack_kb=8192):
+    """the plain (dev profile) binary as a user runs it, main-thread stack as configured by the system (8 MiB)"""
+    import subprocess, resource
+    def lim():
+        resource.setrlimit(resource.RLIMIT_STACK, (stack_kb * 1024, stack_kb * 1024))
+    try:
+        p = subprocess.run([lib.PLAIN_BIN, '--expression', expr], capture_output=True, timeout=timeout, preexec_fn=lim)
+        return p.returncode, p.stdout.decode('utf-8', 'replace'), p.stderr.decode('utf-8', 'replace')
+    except subprocess.TimeoutExpired:
+        return 'timeout', '', ''
+
+def c07_correspond(run, rng, tier):
+    md = max_depth()
+    failures, dist = [], {}
+    # (i) in-process, model vs real: tail loops far beyond the limit, and the exact threshold of non-tail recursion
+    progs, meta = [], []
+    Ns = [10, md - 1, md + 1, 2 * md + 3, 20000] + ([100000] if tier == 'quick' else [100000, 1000000])
+    for name, (defs, call, exp) in TAIL_LOOPS.items():
+        for n in Ns:
+            if name in ('reverse-map', 'zip', 'length-range', 'foldl') and n > 100000:
+                continue
+            progs.append((defs + '\n' if defs else '') + call.format(n=n))
+            meta.append(('tail', name, n, exp(n)))
+    for path in DEEP_PATHS:
+        for n in [md // 4, md // 2 - 3, md // 2 + 3, md - 40, md - 8, md - 4, md - 2, md - 1, md, md + 1, md + 2, md + 40, 3 * md]:
+            if path == 'printing' and n > 3 * md:
+                continue
+            progs.append(deep_program(path, n))
+            meta.append(('deep', path, n, None))
+    sessions = eval_sessions(progs)
+    real = run_sessions(real_cmd(64 * 1024 * 1024), sessions, 900, 12)
+    model = run_sessions(model_cmd(), sessions, 900, 12, big_stack=True)
+    diffs = compare(sessions, real, model)
+    failures += crash_failures(sessions, real)
+    thresholds = {}
+    for (kind, name, n, exp), r, p in zip(meta, real, progs):
+        res, _ = parse_eval(r[1] if len(r) > 1 else '')
+        last = res[-1] if res else None
+        if kind == 'tail':
+            dist['tail-loops'] = dist.get('tail-loops', 0) + 1
+            if last is None or last[0] != 'ok' or last[1] != exp:
+                failures.append({'expression': p, 'expected': exp, 'real': str(last)[:200], 'problem': f'tail-recursive loop of {n} iterations did not run in constant depth'})
+        else:
+            dist['deep-recursions'] = dist.get('deep-recursions', 0) + 1
+            signalled = last is not None and last[0] == 'ok' and last[1].startswith('(caught stackoverflow')
+            finished = last is not None and last[0] == 'ok' and not last[1].startswith('(caught')
+            if not (signalled or finished):
+                failures.append({'expression': p[:300], 'real': str(last)[:200], 'problem': f'recursion of depth {n} through {name} neither finished nor raised a trappable stackoverflow'})
+            if n >= 3 * md and not signalled:
+                failures.append({'expression': p[:300], 'real': str(last)[:200], 'problem': f'recursion of depth {n} (3x the limit) through {name} was not stopped by the depth limit'})
+            if signalled:
+                thresholds[name] = min(thresholds.get(name, 10 ** 9), n)
+    dist['first-signalling-depth'] = thresholds
+    # (ii) the native stack, which no model exhibits: the plain dev-profile binary, default 8 MiB main-thread stack
+    ladder = []
+    for path in DEEP_PATHS:
+        for n in ([md + 200] if tier == 'quick' else [md - 1, md + 1, md + 200, 10 * md]):
+            ladder.append((path, n))
+    from concurrent.futures import ThreadPoolExecutor
+    def one(pn):
+        path, n = pn
+        prog = deep_program(path, n).replace('\n', ' ')
+        return pn, prog, run_plain_expression('(block ' + prog + ')' if DEEP_PATHS[path][0] else prog)
+    with ThreadPoolExecutor(max_workers=8) as ex:
+        for (path, n), prog, (rc, out, err) in ex.map(one, ladder):
+            dist['process-runs'] = dist.get('process-runs', 0) + 1
+            if rc != 0 or 'overflow' in err.lower() and 'stackoverflow' not in out:
+                failures.append({'expression': prog[:400], 'exit': rc, 'stderr': err[-200:], 'stdout': out[-200:],
+                                 'problem': f'the dev-profile binary did not survive recursion depth {n} through {path} on its configured stack (native stack overflow or crash)',
+                                 'replay_cmd': f"{lib.PLAIN_BIN} --expression '<expression>'"})
+    return {'evaluations': len(progs) + len(ladder), 'distinct_nontrivial': len(progs),
+            'rule': f'tail-recursive loops through if/lambda, eval, mutual recursion, when/block and the prelude\'s accumulating functions for N in {Ns} (limit {md}); non-tail recursion through operands, cons evaluation, '
+                    'macro expansion, trap bodies, nested eval, printing and foldr at depths around and beyond the limit (the first signalling depth must agree between model and real code); '
+                    'plus the dev-profile binary as a process on the default 8 MiB stack for the deepest witnesses of every path',
+            'samples': [progs[0], progs[len(TAIL_LOOPS) * len(Ns)][:200]], 'disagreements': diffs, 'oracle_failures': failures, 'distribution': dist}
+
+spec('C07', correspond=c07_correspond, replay=generic_replay, modules=['C07'], plain=True,
+     search=lambda run, rng, d: c07_correspond(run, random.Random(rng.random()), 'quick')['oracle_failures'],
+     trusted=['the evaluator model is tied to eval/mod.rs by differential execution', 'the correspondence check'],
+     assumptions=['bytes of native stack per recursion level are outside the model: measured on the dev-profile binary with the stack the application configures (partial)',
+                  'the release profile uses smaller frames than the dev profile (measured in the thorough tier only)'])
+
+
+# ================================================================================================ C15
+
+def c15_history(rng):
+    """a sequence of define / undefine / redefine / export / lookup / load operations as program text"""
+    names = ['v1', 'v2', 'v3']
+    forms = []
+    depth_texts = []
+    def load_text(depth):
+        inner = []
+        for _ in range(rng.randint(1, 4)):
+            k = rng.random()
+            n = rng.choice(names)
+            if k < 0.3: inner.append(f"(define '{n} {rng.randint(0, 99)} (list))")
+            elif k < 0.4: inner.append(f"(undefine '{n})")
+            elif k < 0.5: inner.append(f"(export '({n}))")
+            elif k < 0.6: inner.append("(get-current-module)")
+            elif k < 0.7 and depth < 3:
+                t = load_text(depth + 1).replace('\\', '\\\\').replace('"', '\\"')
+                inner.append(f'(load-all "{t}" "inner{depth}")')
+            else: inner.append(f"(add 1 {rng.randint(0, 5)})")
+        # a failure at a chosen form, by a chosen cause — or none
+        cause = rng.choice([None, None, 'unbound', 'signal', 'abort', 'arity', 'read-error', 'incomplete', 'type'])
+        bad = {'unbound': '(undefined-thing 1)', 'signal': "(signal 'stop)", 'abort': '(abort)', 'arity': '(car)', 'read-error': ')', 'incomplete': '(add 1', 'type': "(add 'a 1)"}
+        if cause:
+            inner.insert(rng.randint(0, len(inner)), bad[cause])
+        return ' '.join(inner)
+    for _ in range(rng.randint(4, 14)):
+        k = rng.random()
+        n = rng.choice(names)
+        if k < 0.25: forms.append(f"(define '{n} {rng.randint(0, 99)} \"\")")
+        elif k < 0.37: forms.append(f"(undefine '{n})")
+        elif k < 0.47: forms.append(f"(eval (trap {n} 'unbound))")
+        elif k < 0.55: forms.append(f"(whereis '{n})")
+        elif k < 0.62: forms.append("(get-current-module)")
+        else:
+            t = load_text(1).replace('\\', '\\\\').replace('"', '\\"')
+            mod = rng.choice(['ma', 'mb', 'ma'])
+            forms.append(f'(eval (trap (load-all "{t}" "{mod}") (list \'load-stopped (get-current-module))))')
+        forms.append("(get-current-module)")
+    return '\n'.join(forms)
+
+def c15_correspond(run, rng, tier):
+    n = 600 if tier == 'quick' else 10000
+    progs = [c15_history(rng) for _ in range(n)]
+    sessions = eval_sessions(progs)
+    real, model = both(sessions)
+    diffs = compare(sessions, real, model)
+    failures = crash_failures(sessions, real)
+    dist = {'loads': 0, 'loads-stopped': 0, 'define-existing': 0, 'aborted-forms': 0}
+    for p, r in zip(progs, real):
+        res, trailer = parse_eval(r[1] if len(r) > 1 else '')
+        forms = p.split('\n')
+        if res is None or len(res) != len(forms):
+            failures.append({'expression': p, 'problem': 'driver did not answer every form', 'real': (r[1] if len(r) > 1 else str(r))[:300]})
+            continue
+        defined = {}
+        for f, (kind, printed, _) in zip(forms, res):
+            # Python model of the default module's table (dict) + the rule that the current module is always `default` at top level
+            m = re.match(r"\(define '(\w+) (\d+) \"\"\)", f)
+            if f == '(get-current-module)' and (kind, printed) != ('ok', 'default'):
+                failures.append({'expression': p, 'problem': f'the current module at top level is {printed!r}, not the one that was current before the load', 'form': f})
+                break
+            if 'load-all' in f:
+                dist['loads'] += 1
+                if kind == 'ok' and printed.startswith('(load-stopped'):
+                    dist['loads-stopped'] += 1
+                    if printed != '(load-stopped default)':
+                        failures.append({'expression': p, 'problem': f'after a load stopped by a signal the current module is {printed}', 'form': f})
+                        break
+                if kind == 'abort': dist['aborted-forms'] += 1
+            elif m:
+                name, val = m.group(1), m.group(2)
+                if name in defined:
+                    dist['define-existing'] += 1
+                    if kind != 'sig' or 'already-defined' not in printed:
+                        failures.append({'expression': p, 'problem': f'define of the existing name {name} did not signal: {kind} {printed}', 'form': f})
+                        break
+                else:
+                    if (kind, printed) != ('ok', 'ok'):
+                        failures.append({'expression': p, 'problem': f'define of the fresh name {name} failed: {kind} {printed}', 'form': f})
+                        break
+                    defined[name] = val
+            elif f.startswith('(undefine'):
+                defined.pop(f[11:-1], None)
+            elif f.startswith('(eval (trap v'):
+                name = f[12:14]
+                # globals defined in loaded modules without exports are visible too (and may be ambiguous): only the default-only case is decided here
+                if name in defined and printed not in (defined[name], 'unbound') and kind == 'ok' and not any('load-all' in g for g in forms):
+                    failures.append({'expression': p, 'problem': f'{name} evaluates to {printed}, its definition says {defined[name]}', 'form': f})
+                    break
+    return {'evaluations': n, 'distinct_nontrivial': len(set(progs)),
+            'rule': 'histories of 4-14 operations over define / undefine / re-define / export / lookup / whereis / get-current-module / load-all, where the loaded texts are generated with nested loads (depth <= 3) '
+                    'and fail at a chosen form by a chosen cause (unbound symbol, signal, abort, arity error, type error, read error, incomplete input) or succeed; after every operation the current module is read back; '
+                    'real vs model vs a Python table oracle',
+            'samples': progs[:2], 'disagreements': diffs, 'oracle_failures': failures, 'distribution': dist}
+
+spec('C15', correspond=c15_correspond, replay=generic_replay, modules=['C15'],
+     search=lambda run, rng, d: c15_correspond(run, random.Random(rng.random()), 'quick')['oracle_failures'],
+     trusted=['the evaluator model is tied to eval/mod.rs and globals/mod.rs by differential execution', 'HashMap as a finite map', 'the correspondence check'],
+     assumptions=['define_module replaces an existing module of the same name (observation: loading the same source name twice drops the first load\'s definitions)'])
